@@ -526,6 +526,8 @@ func init() {
 		return w.mkStr(w.bytesOf(buf))
 	})
 	reg("(*strings.Builder).copyCheck", nop)
+	reg("internal/stringslite.Clone", func(w *World, t *Thread, fr *frame, fn *ssa.Function, args []Value) Value { return args[0] })
+	reg("strconv.cloneString", func(w *World, t *Thread, fr *frame, fn *ssa.Function, args []Value) Value { return args[0] })
 	reg("strings.Clone", func(w *World, t *Thread, fr *frame, fn *ssa.Function, args []Value) Value { return args[0] })
 	reg("unique.Make", nil)
 	delete(intrinsics, "unique.Make")
